@@ -4,7 +4,7 @@ import Arimaa.Lemmas.RsAgreeBoard
 Agreement of the regenerated model with the hand model: `piece_board_for_step`.
 -/
 namespace Arimaa.RsAgree
-open Arimaa Arimaa.Gen Arimaa.Gen.Rs Arimaa.Rt
+open Arimaa Arimaa.Gen Arimaa.Gen.RsBase Arimaa.Rt
 
 theorem piece_board_for_step_eq (s : GameState) (i : Nat) :
     GameState_piece_board_for_step s i = Res.guard (s.pieceBoardForStepPanics i) (s.pieceBoardForStep i) := by
